@@ -5,6 +5,7 @@ import itertools
 import random
 
 from . import sigs, oracle
+from . import core
 from .sigs import PO, PK, VA, KO, VK
 from .sigutil import bparams, show, show_params
 
@@ -169,6 +170,7 @@ def build_source(c, inner_params=None):
     return src
 
 
+@core.guarded(lambda case_seed: dict(workload='decl', case_seed=case_seed))
 def check_case(ctx, case_seed):
     import sigtools
     from sigtools import signatures
